@@ -5,12 +5,14 @@ nor known to be `Instruction::Variable` (a constant: dropping it loses no effect
 constant LEFT operand of `&&` / `||` decides the result (short-circuit), or on a path that reports a parse-time error
 (the difference the property permits). Decided on the MIR: drop elaboration makes every discard an explicit `drop(place)`
 guarded by a drop flag; a small path-sensitive walk tracks the flags and the `discriminant == Variable` tests."""
+import re
 from collections import deque
 
 from ..engine import RuleResult
 from ..model import enum_switches, op_local
 
 INS = "instruction::Instruction"
+IWS = "instruction::InstructionWithStr"
 L = "instruction::bin_op::logic::"
 POLICY = {   # function -> policy: 'lhs-const' (lhs constant decides) | 'self-const' (only constants may be dropped)
     L + "and::create_from_instructions": "lhs-const",
@@ -26,6 +28,16 @@ POLICY = {   # function -> policy: 'lhs-const' (lhs constant decides) | 'self-co
     "instruction::bin_op::shift::rshift::create_from_instructions": "self-const",
     "instruction::at::create_from_instructions": "self-const",
     "instruction::array_repeat::ArrayRepeat::create_from_instructions": "self-const",
+}
+
+
+# functions outside POLICY that legitimately discard a non-constant instruction they own
+GENERAL = {
+    "instruction::r#loop::r#while::create_instruction":
+        ("any-const", None),        # `while false body`: the constant condition decides that the body never runs
+    "instruction::r#loop::while_set::create_instruction":
+        ("self-const", ("instruction::control_flow::set_if_else::SetIfElse", "else_instruction",
+                        "while-set has no else branch in the grammar: SetIfElse::create put the constant () there, it is replaced by `break`")),
 }
 
 
@@ -115,9 +127,12 @@ def analyse(b, policy):
             continue
         if k == "drop":
             pl = t["place"]
-            if place_ty(b, pl) == INS and not blk.get("cleanup"):
+            pty = place_ty(b, pl)
+            if pty in (INS, IWS) and not blk.get("cleanup"):
                 p = canon(pid(pl))
-                ok = err or p in facts or (policy == "lhs-const" and (facts & lhs_ids))
+                # an InstructionWithStr is a constant when its `instruction` field (field 0) is
+                known = p in facts or (pty == IWS and canon(p + ".0") in facts) or (p.endswith(".0") and p[:-2] in facts)
+                ok = err or known or (policy == "lhs-const" and (facts & lhs_ids)) or (policy == "any-const" and facts)
                 if not ok:
                     bad.append((t.get("line"), p, "dropped on a path where it is not known to be a constant"
                                 + ("" if policy != "lhs-const" else " and the left operand is not a constant either")))
@@ -177,6 +192,35 @@ def run(ctx):
                     % (fid, p, why), b.where(line))
         else:
             res.ok(key, b.where(), "policy %s, %d configurations" % (policy, n))
+    # every other function that creates or folds an instruction: whatever instruction it owns (a created or recreated child)
+    # ends up in the result, unless it is known to be a constant
+    ng = 0
+    for fid, b in sorted(lib.bodies.items()):
+        if fid in POLICY or not fid.startswith(("instruction::", "<instruction::")) or "{closure" in fid:
+            continue
+        nm = fid.rsplit("::", 1)[-1]
+        if not ((b.impl_trait == "instruction::Recreate" and nm == "recreate") or nm.startswith("create_from_instruction")
+                or nm in ("create_instruction", "create_op", "create")):
+            continue
+        ng += 1
+        policy, exempt = GENERAL.get(fid, ("self-const", None))
+        bad, n = analyse(b, policy)
+        total += n
+        if exempt:
+            adt, field, _why = exempt
+            fields = [f["name"] for f in lib.adts[adt]["variants"][0]["fields"]] if adt in lib.adts else []
+            for p in list(bad):
+                m = re.match(r"_(\d+)\.(\d+)$", p)
+                if m and b.local_ty(int(m.group(1))) == adt and int(m.group(2)) < len(fields) and fields[int(m.group(2))] == field:
+                    del bad[p]
+        key = "folddrop:%s" % fid
+        if bad:
+            p, (line, why) = sorted(bad.items())[0]
+            res.bad(key, "%s discards an instruction it created or folded (%s: %s): %s - its effects (calls, assignments, run-time errors) "
+                         "vanish from the program" % (fid, p, b.local_ty(int(re.match(r"_(\d+)", p).group(1))), why), b.where(line))
+        else:
+            res.ok(key, b.where(), "policy %s, %d configurations" % (policy, n))
+    res.floor(ng, 60, "creating_or_folding_functions")
     res.stats["configurations"] = total
     fx = ctx.fixtures.body("folddrop::absorbing_rhs")
     fy = ctx.fixtures.body("folddrop::constant_lhs")
